@@ -145,6 +145,12 @@ impl Monitor for FeedMon {
 
 pub fn run_feed_history(rng: &mut Rng, h: &mut History, r: &mut Report, steps: u64) {
     let mut last_ts = h.w.feed_hist.last().map(|x| x.1).unwrap_or(0);
+    // one history in ten submits prices near the top of the 128-bit range: price x seconds then no longer fits and the
+    // feed must refuse to answer (or answer correctly) rather than return a clamped / wrapped figure
+    let huge = rng.chance(1, 10);
+    if huge {
+        r.count("feed-histories-with-prices-near-2^128");
+    }
     for _ in 0..steps {
         let now = h.w.now();
         match rng.below(10) {
@@ -158,12 +164,16 @@ pub fn run_feed_history(rng: &mut Rng, h: &mut History, r: &mut Report, steps: u
                 let base = h.w.feed_hist.last().map(|x| x.0).unwrap_or(1_000_000);
                 // the feed accepts any price, zero included ("no answer" rounds of an upstream aggregator): a zero
                 // round is an observation like any other for the latest / previous / TWAP queries
-                let price = match rng.below(12) {
+                let price = if huge {
+                    rng.u128_range(u128::MAX / 100_000, u128::MAX / 20)
+                } else {
+                    match rng.below(12) {
                     0..=2 => base,
                     3..=5 => rng.u128_range(1, 1_000_000_000),
                     6 => 0,
                     _ if base == 0 => rng.u128_range(1, 1_000_000_000),
-                    _ => (base * rng.u128_range(80, 125) / 100).max(1),
+                    _ => (base.saturating_mul(rng.u128_range(80, 125)) / 100).max(1),
+                    }
                 };
                 h.step(Op::Feed { sender: "owner".into(), msg: pf::ExecuteMsg::AppendPrice { key: KEY.into(), price: Uint128::new(price), timestamp: ts } }, r);
                 last_ts = h.w.feed_hist.last().map(|x| x.1).unwrap_or(last_ts);
@@ -175,7 +185,7 @@ pub fn run_feed_history(rng: &mut Rng, h: &mut History, r: &mut Report, steps: u
                 let mut t = last_ts;
                 for _ in 0..k {
                     t = rng.range(t, now.max(t));
-                    prices.push(Uint128::new(if rng.chance(1, 10) { 0 } else { rng.u128_range(1, 50_000_000) }));
+                    prices.push(Uint128::new(if huge { rng.u128_range(u128::MAX / 100_000, u128::MAX / 20) } else if rng.chance(1, 10) { 0 } else { rng.u128_range(1, 50_000_000) }));
                     tss.push(t);
                 }
                 h.step(Op::Feed { sender: "owner".into(), msg: pf::ExecuteMsg::AppendMultiplePrice { key: KEY.into(), prices, timestamps: tss } }, r);
